@@ -48,7 +48,7 @@ def coq_files():
     fs = []
     for root, _, names in os.walk(COQ):
         for n in names:
-            if n.endswith(".v") and n != "Extract.v":
+            if n.endswith(".v"):
                 fs.append(os.path.relpath(os.path.join(root, n), COQ))
     return sorted(fs)
 
@@ -160,28 +160,49 @@ def coq_props(pid, extra_targets=()):
 # --------------------------------------------------------------------------
 # extracted OCaml driver
 
+def extract_modules():
+    d = os.path.join(COQ, "Extract")
+    return sorted(f[:-2] for f in os.listdir(d) if f.startswith("X_") and f.endswith(".v"))
+
+
 def build_driver():
-    """Extract the models and build ocaml driver; returns its path."""
+    """Extract the models (every coq/Extract/X_*.v: all its `Definition x_...`
+    plus the names on its `(* also: a b c *)` lines) and build the OCaml
+    driver from ocaml/drv_*.ml; returns its path."""
     d = os.path.join(BUILD, "ocaml")
     with Lock("ocaml"):
         os.makedirs(d, exist_ok=True)
-        ok, log = coq_make(["Extract/ExtractDeps.vo"])
+        mods = extract_modules()
+        ok, log = coq_make(["Extract/%s.vo" % m for m in mods])
         if not all(ok.values()):
-            raise Infra("Coq models do not compile:\n" + log[-3000:])
+            raise Infra("Coq models do not compile:\n" + "\n".join(l for l in log.split("\n") if "Error" in l or l.startswith("File"))[-3000:])
         h = hashlib.sha256()
         for f in coq_files():
             if f.startswith(("Model/", "Spec/", "Bits/", "Extract/")):
                 h.update(open(os.path.join(COQ, f), "rb").read())
-        h.update(open(os.path.join(VERIF, "ocaml", "driver.ml"), "rb").read())
+        mls = sorted(f for f in os.listdir(os.path.join(VERIF, "ocaml")) if f.startswith("drv_") and f.endswith(".ml"))
+        for f in mls:
+            h.update(open(os.path.join(VERIF, "ocaml", f), "rb").read())
         stamp = os.path.join(d, "stamp")
         exe = os.path.join(d, "driver")
         if os.path.exists(exe) and os.path.exists(stamp) and open(stamp).read() == h.hexdigest():
             return exe
-        sh(["coqc", "-Q", COQ, "AsconV", os.path.join(COQ, "Extract", "Extract.v"), "-o", os.path.join(d, "Extract.vo")],
-           cwd=d, check=True, timeout=900)
-        shutil.copy(os.path.join(VERIF, "ocaml", "driver.ml"), d)
-        sh(["ocamlfind", "ocamlopt", "-w", "-a", "-unboxed-types"] if False else
-           ["ocamlfind", "ocamlopt", "-w", "-a", "model.mli", "model.ml", "driver.ml", "-o", "driver"],
+        names = []
+        for m in mods:
+            txt = open(os.path.join(COQ, "Extract", m + ".v")).read()
+            names += re.findall(r"^Definition\s+(x_[A-Za-z0-9_']+)", txt, flags=re.M)
+            for also in re.findall(r"\(\*\s*also:\s*(.*?)\*\)", txt, flags=re.S):
+                names += also.split()
+        ev = ("(* generated by lib/common.py:build_driver - extraction with ExtrOcamlBasic only *)\n"
+              "Require Extraction.\nRequire Import ExtrOcamlBasic.\n"
+              + "".join("From AsconV Require Import Extract.%s.\n" % m for m in mods)
+              + "Extraction Language OCaml.\nExtraction \"model.ml\" " + " ".join(names) + ".\n")
+        open(os.path.join(d, "Extract.v"), "w").write(ev)
+        sh(["coqc", "-Q", COQ, "AsconV", "Extract.v"], cwd=d, check=True, timeout=900)
+        for f in mls:
+            shutil.copy(os.path.join(VERIF, "ocaml", f), d)
+        order = ["drv_core.ml"] + [f for f in mls if f not in ("drv_core.ml", "drv_main.ml")] + ["drv_main.ml"]
+        sh(["ocamlfind", "ocamlopt", "-w", "-a", "model.mli", "model.ml"] + order + ["-o", "driver"],
            cwd=d, check=True, timeout=900)
         open(stamp, "w").write(h.hexdigest())
         return exe
